@@ -435,7 +435,7 @@ func checkC01(p *core.Program, r *core.Report) {
 		}
 		r.Check(paired, "R5", key, p.Pos(cs.Pos()), "followed by sprint.logEvent(same event) in the same block", "a run event is not appended to the sprint's event list right after being recorded on the run")
 	}
-	r.Require("run_logevent_sites", nLog, 4)
+	r.Require("run_logevent_sites", nLog, 1) // the rule is universal; closures sharing one logger leave fewer sites
 
 	// ------------------------------------------------------------------ R6
 	if pf := p.FieldOf("flows/runs", "run", "path"); pf != nil {
